@@ -297,7 +297,7 @@ MUTANTS = [
     {"id": "offset-of-whole-fetch", "file": "consumer.py", "old": "last_offset = msgs_to_proc[-1].offset",
      "new": "last_offset = messages[-1].offset", "expect": "C03.R1"},
     {"id": "no-failure-check-after-yield", "file": "consumer.py",
-     "old": "                if self._start_d is None or self._start_d.called:\n", "new": "                if False:\n",
+     "old": "                if self._stopping or self._start_d is None or self._start_d.called:\n", "new": "                if False:\n",
      "expect": "C03.R2"},
     {"id": "commit-rereads-offset", "file": "consumer.py", "old": "            callbackArgs=(commit_offset,),",
      "new": "            callbackArgs=(self._last_processed_offset,),", "expect": "C03.R5"},
@@ -325,11 +325,11 @@ MUTANTS = [
      "expect": "C03.R1"},
 ]
 MUTANTS.append({"id": "failure-exit-breaks", "file": "consumer.py",
-                "old": "                    # record and commit progress past an unprocessed block.\n                    return\n",
-                "new": "                    # record and commit progress past an unprocessed block.\n                    break\n",
+                "old": "                    # commit progress past an unprocessed block.\n                    return\n",
+                "new": "                    # commit progress past an unprocessed block.\n                    break\n",
                 "expect": "C03.R2"})
 TWINS = [
     {"id": "check-yield-result-form", "file": "consumer.py",
-     "old": "                if self._start_d is None or self._start_d.called:\n",
-     "new": "                if not self._start_d or self._start_d.called:\n"},
+     "old": "                if self._stopping or self._start_d is None or self._start_d.called:\n",
+     "new": "                if self._stopping or not self._start_d or self._start_d.called:\n"},
 ]
